@@ -36,6 +36,8 @@ TUPLE_AS_SEQUENCE = True
 # modelled as an uninterpreted function of the record value (ASSUMED pure; only used by the nucleic_acid_only filter)
 # dicts that are modified in a loop keep the representation invariant "the key list holds exactly the keys, each once"
 DICT_ORDER_INVARIANT = True
+# composite dict keys ((label, auth, name): 11 components) are packed into one index by an injective function
+PACK_KEYS = True
 PURE_ATTRS = {"Residue3D.is_nucleotide": "bool"}
 
 
@@ -316,7 +318,10 @@ def _ext_float_ok(e, args, kw, node, st):
 
 # wfl(l): "line l of the file being parsed is well-formed" - an abbreviation (definitional lemma wfl_definition) that keeps the
 # string-heavy well-formedness condition out of the solver's way until the proof asks for one line's instance
-UFUNS = {"wfl": (["int"], "bool")}
+UFUNS = {"wfl": (["int"], "bool"),
+         # within(p, q, r): the points p, q are at Euclidean distance <= r (definition within_definition; the proofs never unfold
+         # it - the clash filter is correct for whatever symmetric-or-not criterion the KD-tree applies to index pairs a < b)
+         "within": (["real"] * 7, "bool")}
 EXTERNALS = {"str.strip": _ext_strip, "spec.int_ok": _ext_int_ok, "spec.float_ok": _ext_float_ok}
 SPEC_EXTERNALS = {"strip": "str.strip", "int_ok": "spec.int_ok", "float_ok": "spec.float_ok"}
 
@@ -442,18 +447,21 @@ def dist2(p, q):
 
 
 @spec
-def adist2(a, b):
-    """squared distance of two atoms"""
-    return (a.x - b.x) * (a.x - b.x) + (a.y - b.y) * (a.y - b.y) + (a.z - b.z) * (a.z - b.z)
+def close_atoms(a, b, r):
+    """the atoms a, b are at distance <= r"""
+    return within(a.x, a.y, a.z, b.x, b.y, b.z, r)
+
+
+LEMMAS["within_definition"] = {"kind": "definition", "params": ["px", "py", "pz", "qx", "qy", "qz", "r"],
+                               "ensures": ["within(px, py, pz, qx, qy, qz, r) == ((px - qx) * (px - qx) + (py - qy) * (py - qy) + (pz - qz) * (pz - qz) <= r * r)"]}
 
 
 class kd_query_pairs_c:
-    """ASSUMED contract of scipy.spatial.KDTree.query_pairs(r): exactly the index pairs (a < b) of points at distance <= r
-    (real arithmetic: distance <= r  iff  squared distance <= r*r for r >= 0)"""
+    """ASSUMED contract of scipy.spatial.KDTree.query_pairs(r): exactly the index pairs (a < b) of points at distance <= r"""
     params = {"self": "KDTree", "r": "real"}
     requires = []
     returns = "set[tuple[int,int]]"
-    ensures = ["forall(lambda a, b: ((a, b) in result) == (0 <= a and a < b and b < len(self.pts) and dist2(self.pts[a], self.pts[b]) <= r * r))"]
+    ensures = ["forall(lambda a, b: ((a, b) in result) == (0 <= a and a < b and b < len(self.pts) and within(self.pts[a][0], self.pts[a][1], self.pts[a][2], self.pts[b][0], self.pts[b][1], self.pts[b][2], r)))"]
     raises = []
     modifies = []
 
@@ -486,41 +494,43 @@ KEY = "tuple[opt[rec[ResidueLabel]],opt[rec[ResidueAuth]],str]"
 
 
 @spec
-def kept_copies(UL, atoms, RK):
-    """what the duplicate filter establishes: UL holds input atoms (RK: their positions), one per (label, auth, name), and every
-    input atom has its key represented by a copy of at least its occupancy"""
+def kept_copies(UL, atoms):
+    """what the duplicate filter establishes: UL holds input atoms, one per (label, auth, name), and every input atom has its
+    key represented in UL by a copy of at least its occupancy"""
     return (len(UL) >= 0
-            and forall(lambda p: implies(0 <= p and p < len(UL), 0 <= RK[akey(UL[p])] and RK[akey(UL[p])] < len(atoms) and UL[p] == atoms[RK[akey(UL[p])]]))
+            and forall(lambda p: implies(0 <= p and p < len(UL), exists(lambda t: 0 <= t and t < len(atoms) and UL[p] == atoms[t])))
             and forall(lambda p, q: implies(0 <= p and p < q and q < len(UL), akey(UL[p]) != akey(UL[q])))
             and forall(lambda t: implies(0 <= t and t < len(atoms), exists(lambda p: 0 <= p and p < len(UL) and akey(UL[p]) == akey(atoms[t]) and occ0(atoms[t]) <= occ0(UL[p])))))
 
 
 class filter_single_c:
-    """the single-model core (duplicate filter + clash filter).  Ghosts: RK[k] = position in `atoms` of the copy currently kept
-    for the key k = (label, auth, name); UL = the kept copies in first-occurrence order of their keys (unique_atoms_list);
+    """the single-model core (duplicate filter + clash filter).  Ghosts: UL = the kept copies in first-occurrence order of their keys (unique_atoms_list);
     E = the (arbitrary, set-iteration) order in which the surviving positions of UL are emitted"""
     params = {"atoms": "list[rec[Atom]]", "clash_distance": "real"}
     defaults = {"clash_distance": _Fraction(1, 2)}
     requires = ["forall(lambda t: implies(0 <= t and t < len(atoms), atoms[t].model == atoms[0].model))", "clash_distance >= 0"]
     returns = "list[rec[Atom]]"
     ensures = [
-        "len(E) == len(result) and forall(lambda r: implies(0 <= r and r < len(result), 0 <= E[r] and E[r] < len(UL) and result[r] == UL[E[r]]))",
-        "forall(lambda p: implies(0 <= p and p < len(UL), 0 <= RK[akey(UL[p])] and RK[akey(UL[p])] < len(atoms) and UL[p] == atoms[RK[akey(UL[p])]]))",
+        "len(E) == len(result) and forall(lambda r: implies(0 <= r and r < len(result), 0 <= E[r] and E[r] < len(UL) and result[r] == UL[E[r]])) and forall(lambda r, r2: implies(0 <= r and r < r2 and r2 < len(result), E[r] != E[r2]))",
+        "forall(lambda r: implies(0 <= r and r < len(result), exists(lambda t: 0 <= t and t < len(atoms) and result[r] == atoms[t])))",
         "forall(lambda r, r2: implies(0 <= r and r < r2 and r2 < len(result), akey(result[r]) != akey(result[r2])))",
         "forall(lambda r, t: implies(0 <= r and r < len(result) and 0 <= t and t < len(atoms) and akey(atoms[t]) == akey(result[r]), occ0(atoms[t]) <= occ0(result[r])))",
-        "forall(lambda r, r2: implies(0 <= r and r < r2 and r2 < len(result) and result[r].occupancy is not None and result[r2].occupancy is not None, adist2(result[r], result[r2]) > clash_distance * clash_distance))",
+        # any two distinct result atoms (named so that the first is the earlier kept copy) with known occupancies are farther apart
+        "forall(lambda r, r2: implies(0 <= r and r < len(result) and 0 <= r2 and r2 < len(result) and E[r] < E[r2] and UL[E[r]].occupancy is not None and UL[E[r2]].occupancy is not None, not close_atoms(UL[E[r]], UL[E[r2]], clash_distance)))",
     ]
-    ensures_labels = {0: "result-atoms-are-kept-copies-each-once", 1: "kept-copies-are-input-atoms", 2: "one-atom-per-residue-and-name",
+    ensures_labels = {0: "result-atoms-are-kept-copies-each-once", 1: "every-result-atom-is-an-input-atom", 2: "one-atom-per-residue-and-name",
                       3: "the-highest-occupancy-copy", 4: "of-two-atoms-within-the-clash-distance-only-one"}
     raises = []
     modifies = []
     locals = {"unique_atoms": "dict[" + KEY + ",rec[Atom]]", "result": "list[rec[Atom]]"}
-    ghost_entry = ["let RK = empty('dict[" + KEY + ",int]')", "let UL = empty('list[rec[Atom]]')"]
+    ghost_entry = ["let UL = empty('list[rec[Atom]]')"]
     loops = {
         0: {"inv": ["len(models) <= 1"]},  # the multi-model branch is not entered under this variant's precondition
         1: {"index": "n1", "inv": [
+            # every processed atom's key is present and holds a copy of at least that atom's occupancy
             "forall(lambda t: implies(0 <= t and t < n1, akey(atoms[t]) in unique_atoms and occ0(atoms[t]) <= occ0(unique_atoms[akey(atoms[t])])))",
-            "forall(lambda p: implies(0 <= p and p < len(list(unique_atoms.keys())), 0 <= RK[list(unique_atoms.keys())[p]] and RK[list(unique_atoms.keys())[p]] < n1 and unique_atoms[list(unique_atoms.keys())[p]] == atoms[RK[list(unique_atoms.keys())[p]]] and akey(atoms[RK[list(unique_atoms.keys())[p]]]) == list(unique_atoms.keys())[p]))",
+            # every key of the dict holds a processed input atom carrying that key
+            "forall(lambda p: implies(0 <= p and p < len(list(unique_atoms.keys())), exists(lambda t: 0 <= t and t < n1 and unique_atoms[list(unique_atoms.keys())[p]] == atoms[t] and akey(atoms[t]) == list(unique_atoms.keys())[p])))",
         ]},
         2: {"index": "n2", "seq": "PS", "inv": [
             "forall(lambda u: implies(u in atoms_to_keep, 0 <= u and u < len(unique_atoms_list)))",
@@ -529,25 +539,78 @@ class filter_single_c:
     }
     ghost = [
         {"when": "before", "at": "if len(models) > 1", "label": "one-model", "do": ["assert len(models) <= 1"]},
-        {"when": "after", "at": "unique_atoms[key] = atom", "loop": 1, "label": "copy-replaced", "do": ["let RK = dstore(RK, key, n1)"]},
+        # at the exit of the duplicate loop only the loop's own facts matter: the dict's representation invariant (4 facts), the
+        # index bounds, the 2 invariants and the exit condition are the last 8 hypotheses
+        {"when": "before", "at": "unique_atoms_list = list(unique_atoms.values())", "label": "duplicate-loop-summary", "do": ["keep 8"]},
         {"when": "after", "at": "unique_atoms_list = list(unique_atoms.values())", "label": "kept-copies",
          "do": ["let UL = unique_atoms_list",
-                "assert len(UL) >= 0 and forall(lambda p: implies(0 <= p and p < len(UL), 0 <= RK[akey(UL[p])] and RK[akey(UL[p])] < len(atoms) and UL[p] == atoms[RK[akey(UL[p])]]))",
+                "assert len(UL) == len(list(unique_atoms.keys())) and forall(lambda p: implies(0 <= p and p < len(UL), akey(UL[p]) == list(unique_atoms.keys())[p] and UL[p] == unique_atoms[list(unique_atoms.keys())[p]]))",
+                "assert len(UL) >= 0 and forall(lambda p: implies(0 <= p and p < len(UL), exists(lambda t: 0 <= t and t < len(atoms) and UL[p] == atoms[t])))",
                 "assert forall(lambda p, q: implies(0 <= p and p < q and q < len(UL), akey(UL[p]) != akey(UL[q])))",
                 "assert forall(lambda t: implies(0 <= t and t < len(atoms), exists(lambda p: 0 <= p and p < len(UL) and akey(UL[p]) == akey(atoms[t]) and occ0(atoms[t]) <= occ0(UL[p]))))",
-                "cut kept_copies(UL, atoms, RK)"]},
+                "keep 3"]},
     ]
     ghost_exit = ["let E = last_enum()"]
+    ghost += [
+        {"when": "before", "at": "return [unique_atoms_list[i] for i in atoms_to_keep]", "label": "no-clash-among-the-kept",
+         "do": ["assert forall(lambda a, b: implies(0 <= a and a < b and b < len(UL) and a in atoms_to_keep and b in atoms_to_keep and UL[a].occupancy is not None and UL[b].occupancy is not None, not close_atoms(UL[a], UL[b], clash_distance)))"]},
+    ]
 
 
-class filter_clashing_atoms_c:
-    params = {"atoms": "list[rec[Atom]]", "clash_distance": "real"}
-    defaults = {"clash_distance": _Fraction(1, 2)}
+@spec
+def same_slot(a, b):
+    """same (model, label, auth, name): the two atoms are copies of one atom"""
+    return akey(a) == akey(b) and a.model == b.model
+
+
+@spec
+def G_from_input(R, atoms):
+    return forall(lambda r: implies(0 <= r and r < len(R), exists(lambda t: 0 <= t and t < len(atoms) and R[r] == atoms[t])))
+
+
+@spec
+def G_one_per_slot(R):
+    return forall(lambda r, r2: implies(0 <= r and r < r2 and r2 < len(R), not same_slot(R[r], R[r2])))
+
+
+@spec
+def G_highest(R, atoms):
+    return forall(lambda r, t: implies(0 <= r and r < len(R) and 0 <= t and t < len(atoms) and same_slot(atoms[t], R[r]), occ0(atoms[t]) <= occ0(R[r])))
+
+
+@spec
+def G_no_clash(R, d):
+    return forall(lambda r, r2: implies(0 <= r and r < r2 and r2 < len(R) and R[r].model == R[r2].model
+                                        and R[r].occupancy is not None and R[r2].occupancy is not None,
+                                        not close_atoms(R[r], R[r2], d) or not close_atoms(R[r2], R[r], d)))
+
+
+class filter_clashing_atoms_c(filter_single_c):
+    """the whole function, any number of models (the multi-model branch calls the function itself: this contract is used for
+    the recursive calls - partial correctness, termination of the recursion is NOT proved)"""
     requires = []
-    returns = "list[rec[Atom]]"
-    ensures = []
-    raises = []
-    modifies = []
+    ensures = [
+        "G_from_input(result, atoms)",
+        "G_one_per_slot(result)",
+        "G_highest(result, atoms)",
+        "G_no_clash(result, clash_distance)",
+        "len(result) >= 0",
+    ]
+    ensures_labels = {0: "every-result-atom-is-an-input-atom", 1: "one-atom-per-model-residue-and-name", 2: "the-highest-occupancy-copy",
+                      3: "of-two-atoms-of-a-model-within-the-clash-distance-only-one", 4: "a-list"}
+    loops = dict(filter_single_c.loops)
+    loops[0] = {"index": "n0", "inv": [
+        "len(result) >= 0",
+        # every atom emitted so far is an input atom of one of the models already handled
+        "forall(lambda r: implies(0 <= r and r < len(result), exists(lambda t, a: 0 <= t and t < len(atoms) and result[r] == atoms[t] and 0 <= a and a < n0 and result[r].model == list(models.keys())[a])))",
+        "G_one_per_slot(result)",
+        "G_highest(result, atoms)",
+        "G_no_clash(result, clash_distance)",
+    ]}
+    ghost = [g for g in filter_single_c.ghost if g["label"] != "one-model"] + [
+        {"when": "before", "at": "unique_atoms = {}", "label": "one-model",
+         "do": ["assert forall(lambda t: implies(0 <= t and t < len(atoms), atoms[t].model == atoms[0].model))"]},
+    ]
 
 
 class parse_pdb_decode_c:
@@ -590,11 +653,19 @@ class parse_pdb_decode_c:
     ghost = [
         {"when": "before", "at": "if line.startswith('MODEL')", "loop": 0, "label": "record-type",
          "do": ["use wfl_definition(pdb.lines, i)", "use record_names(line)"]},
-        {"when": "after", "at": "model = int(line[10:14]", "loop": 0, "label": "model-record", "do": ["let LM = i"]},
+        {"when": "after", "at": "model = int(", "loop": 0, "label": "model-record", "do": ["let LM = i"]},
         {"when": "after", "at": "atoms_to_process.append(", "loop": 0, "label": "atom-record",
          "do": ["use decoded_snoc(A0, SRC, MS, pdb.lines, atoms_to_process[len(atoms_to_process) - 1], i, LM)",
                 "let SRC = snoc(SRC, i)", "let MS = snoc(MS, LM)"]},
         {"when": "before", "at": "atoms_to_process.append(", "loop": 0, "label": "remember", "do": ["let A0 = atoms_to_process"]},
+        {"when": "before", "at": "atoms_to_process.append(", "loop": 0, "label": "names-as-written-in-columns-13-16-and-18-20",
+         "do": ["assert atom_name == strip(col(line, 13, 16)) and auth.name == strip(col(line, 18, 20))"]},
+        {"when": "before", "at": "atoms_to_process.append(", "loop": 0, "label": "chain-number-icode-as-written-in-columns-22-27",
+         "do": ["assert auth.chain == col(line, 22, 22) and auth.number == int(strip(col(line, 23, 26))) and auth.icode == ite(col(line, 27, 27) == ' ', None, col(line, 27, 27))"]},
+        {"when": "before", "at": "atoms_to_process.append(", "loop": 0, "label": "coordinates-occupancy-as-written-in-columns-31-60",
+         "do": ["assert x == float(strip(col(line, 31, 38))) and y == float(strip(col(line, 39, 46))) and z == float(strip(col(line, 47, 54))) and occupancy == float(strip(col(line, 55, 60)))"]},
+        {"when": "before", "at": "atoms_to_process.append(", "loop": 0, "label": "model-is-the-last-MODEL-record",
+         "do": ["assert model == model_of(pdb.lines, LM)"]},
         {"when": "after", "at": "if line.startswith('MODEL')", "loop": 0, "label": "line-done", "do": ["let POS = snoc(POS, len(atoms_to_process) - 1)"]},
         {"when": "before", "at": "atoms = filter_clashing_atoms(", "label": "decoded", "do": ["let D = atoms_to_process"]},
     ]
